@@ -123,6 +123,13 @@ NodalExact == LET K == KP(c) IN \A e \in 1..c.n :
      IN /\ (e < c.n => \A k \in 1..6 : f[6 + k] + EndForceK(K, c, e + 1)[k] = 0)                  \* interior nodes in equilibrium
         /\ (e = c.n => \A k \in 1..6 : f[6 + k] = IPow(c.L, 3) * QQ(c) * LoadVec[c.load][k])  \* tip node carries the load
 ClampedNodeFixed == CF(c, 0) = <<0, 0, 0, 0, 0, 0>>
+\* which node of an assembled beam is the root: the symmetry-plane node (last) of a half-span surface, the middle node
+\* of a full-span one; for an EVEN number of nodes the code states no other convention than "(ny - 1) div 2" (the lower
+\* middle), which the conformance harness takes as the node that lies on y = 0 in its even-ny user meshes
+RootIndex(sym, ny) == IF sym THEN ny - 1 ELSE (ny - 1) \div 2
+RootIndexMeaning == \A ny \in 2..9 : /\ RootIndex(TRUE, ny) = ny - 1
+                                      /\ (ny % 2 = 1 => 2 * RootIndex(FALSE, ny) = ny - 1)          \* the centre node
+                                      /\ (ny % 2 = 0 => 2 * RootIndex(FALSE, ny) = ny - 2)          \* the lower middle
 
 (* ---------------- cases and emission ------------------------------------------------------------- *)
 Dirs == {<<0, 1, 0, 1, 1>>, <<0, 3, 4, 5, 5>>, <<4, 3, 0, 5, 3>>, <<12, 3, 4, 13, 5>>, <<0, -3, 4, 5, 5>>, <<-4, 3, 0, 5, 3>>, <<12, -4, 3, 13, 5>>}
